@@ -12,7 +12,7 @@ use std::collections::VecDeque;
 pub const KINDS: [Kind; 14] = [Kind::Sd, Kind::Mad, Kind::Tr, Kind::Atr, Kind::Min, Kind::Max, Kind::Bb, Kind::Kc, Kind::Ce, Kind::Macd, Kind::Ppo, Kind::Sma, Kind::Wma, Kind::Ema];
 pub const MULTS: [f64; 6] = [0.0, 1e-9, 1.0, 2.0, 1e6, 0.5];
 
-pub const RULE: &str = "Seeded scalar streams of any sign and magnitude up to 1e12 (RAND family incl. cancellation-engineered huge-then-flat tails and alternating decades; band regimes) and bar streams with low<=high (valid OHLCV styles, and bars whose open/close lie anywhere, negative prices included), periods incl. 1 up to 1024, multipliers {0,1e-9,0.5,1,2,1e6}. Every step: SD, MAD >= 0 and not NaN; TR, ATR >= 0; MIN <= MAX (paired instances); lower <= average <= upper for BB/KC; CE long <= window max(high), short >= window min(low); histogram == line - signal for MACD/PPO; SMA, WMA inside [window min, window max] and EMA inside [history min, history max]; the band/exit/histogram/hull relations with slack tau(t)*M (reported separately whether they held with no slack at all). Non-trivial: stream longer than the period with >= 2 distinct values; distinct by hash of (indicator, params, stream head).";
+pub const RULE: &str = "Seeded scalar streams of any sign and magnitude up to 1e12 (RAND family incl. cancellation-engineered huge-then-flat tails and alternating decades; band regimes) and bar streams with low<=high (valid OHLCV styles, and bars whose open/close lie anywhere, negative prices included), periods incl. 1 up to 1024, multipliers {0,1e-9,0.5,1,2,1e6}; a few streams of 1.1*10^6 (2.2*10^6 thorough) inputs with small periods; periods up to usize::MAX for the EMA family. Every step: SD, MAD >= 0 and not NaN; TR, ATR >= 0; MIN <= MAX (paired instances); lower <= average <= upper for BB/KC; CE long <= window max(high), short >= window min(low); histogram == line - signal for MACD/PPO; SMA, WMA inside [window min, window max] and EMA inside [history min, history max]; the band/exit/histogram/hull relations with slack tau(t)*M (reported separately whether they held with no slack at all). Non-trivial: stream longer than the period with >= 2 distinct values; distinct by hash of (indicator, params, stream head).";
 
 fn violation(rep: &mut Report, p: &Params, class: &str, t: usize, detail: String, inputs: &[In], comp: usize, lo: f64, hi: f64) {
     let sig = format!("{}/c09.{}/{}", p.kind.name(), class, phase(t, p.n()));
@@ -330,8 +330,44 @@ fn run_huge_periods(ctx: &Ctx) -> Report {
     })
 }
 
+/// a few long streams with small periods (the hull / ordering checks cost O(period) per step)
+fn run_long(ctx: &Ctx) -> Report {
+    let steps = ctx.pick(1_100_000usize, 2_200_000usize);
+    let seed = ctx.seed;
+    let jobs: Vec<usize> = (0..ctx.pick(8, 16)).collect();
+    par_run(jobs, ctx.threads, move |idx, rep| {
+        let mut rng = Rng::derive(seed, 0xC09F, *idx as u64);
+        let regime = [crate::gen::Regime::Plateau, crate::gen::Regime::Walk, crate::gen::Regime::AltExtremes, crate::gen::Regime::QuietSpikes][idx % 4];
+        let sign = if idx % 3 == 2 { -1.0 } else { 1.0 };
+        let mut g = BandGen::new(regime, 1.0, rng.u64());
+        let mut mons: Vec<Mon> = Vec::new();
+        for kind in [Kind::Sma, Kind::Wma, Kind::Ema, Kind::Sd, Kind::Mad, Kind::Bb, Kind::Macd, Kind::Atr, Kind::Kc] {
+            let mut p = Params::new1(kind, [1usize, 2, 5, 14][rng.below(4)]);
+            match kind {
+                Kind::Macd => p.p = [3, 7, 2],
+                Kind::Bb | Kind::Kc => p.k = 2.0,
+                _ => {}
+            }
+            mons.push(Mon { p, inst: Inst::new(&p), t: 0, m: 0.0, w: VecDeque::new(), wh: VecDeque::new(), wl: VecDeque::new(), hmin: f64::INFINITY, hmax: f64::NEG_INFINITY, dead: false });
+        }
+        // the witness for a long run is the generator spec, not an explicit op list
+        let dummy: [In; 0] = [];
+        for _ in 0..steps {
+            let x = In::S(sign * g.next());
+            for m in mons.iter_mut() {
+                m.step(rep, &x, &dummy);
+            }
+        }
+        rep.count("long_streams");
+        rep.distinct_by_construction += 1;
+    })
+}
+
 pub fn run(ctx: &Ctx) -> Report {
     let mut rep = Report::new();
+    if ctx.phase_enabled("long") {
+        rep.merge(run_long(ctx));
+    }
     if ctx.phase_enabled("huge") {
         rep.merge(run_huge_periods(ctx));
     }
